@@ -247,10 +247,18 @@ Section Hash.
   Variable hstep : Z -> byte -> Z.
   Definition hash_ext (h : Z) (bs : list byte) : Z := fold_left hstep bs h.
 
-  Fixpoint hash_iov (m : mem) (h : Z) (el : list (Z * Z)) : res Z :=
+  (* Crc32Hasher::extend_hash(value, iov) 244-247 with value = m_checksum, a reference INTO the
+     message at address x: the accumulator is written back to memory after every element, so a
+     later element that contains it (the body, last element on the sending side) is hashed
+     with the running value in place *)
+  Fixpoint hash_iov (m : mem) (x : Z) (el : list (Z * Z)) : res mem :=
     match el with
-    | [] => Ok h
-    | (b, l) :: r => d <- load m b l ;; hash_iov m (hash_ext h d) r
+    | [] => Ok m
+    | (b, l) :: r =>
+        h <- load32 m x ;;
+        d <- load m b l ;;
+        m' <- store32 m x (hash_ext h d) ;;
+        hash_iov m' x r
     end.
 
   (* ---------- SerializerIOV 382-427 ---------- *)
@@ -341,9 +349,7 @@ Section Hash.
     st2 <- s_pass false (sh_fields sh) st1 x ;;
     let st3 := s_push st2 x (sh_size sh) in
     if sh_checked sh then
-      h0 <- load32 (s_mem st3) x ;;
-      h <- hash_iov (s_mem st3) h0 (i_el (s_iov st3)) ;;
-      m' <- store32 (s_mem st3) x h ;;
+      m' <- hash_iov (s_mem st3) x (i_el (s_iov st3)) ;;
       Ok (mkS m' (s_iov st3) (s_full st3))
     else Ok st3.
 
@@ -385,11 +391,14 @@ Section Hash.
     | FAIov => if fix_nested_al c then d_iovarr st a else Ok st
     | FArr esz efs =>
         st1 <- d_buffer st a ;;
+        p <- load64 (d_mem st1) a ;;
+        n <- load64 (d_mem st1) (a + 8) ;;
+        if n / esz =? 0 then Ok st1 else
+        (* `for (auto& i : x)` over a failed extraction (null _ptr, wire _len): element references
+           at address 0 + k*esz; undefined pointer arithmetic, a 2^60-iteration spin unless the
+           optimizer removes the loop, a SEGV when the element type has fields to process *)
+        if p =? 0 then Err EOOB else
         if fields_active efs then
-          p <- load64 (d_mem st1) a ;;
-          n <- load64 (d_mem st1) (a + 8) ;;
-          if n / esz =? 0 then Ok st1 else
-          if p =? 0 then Err EOOB else        (* iterates elements at address 0 *)
           (fix loop (k : nat) (st : dst) (e : Z) : res dst :=
              match k with
              | O => Ok st
@@ -423,11 +432,12 @@ Section Hash.
   Definition validate_checksum (m : mem) (v : iovs) (t size : Z) : res (bool * mem) :=
     dst0 <- load32 m t ;;
     m1 <- store32 m t 0 ;;
-    h1 <- hash_iov m1 0 (i_el v) ;;
-    body <- load m1 t size ;;
+    m2 <- hash_iov m1 t (i_el v) ;;
+    h1 <- load32 m2 t ;;
+    body <- load m2 t size ;;            (* the body is hashed with the running value in its checksum field *)
     let h := hash_ext h1 body in
-    m2 <- store32 m1 t h ;;
-    Ok (dst0 =? h, m2).
+    m3 <- store32 m2 t h ;;
+    Ok (dst0 =? h, m3).
 
   (* DeserializerIOV::deserialize 457-477.  Returns (T* or 0, final state). *)
   Definition deserialize (sh : shape) (m : mem) (v : iovs) : res (Z * dst) :=
